@@ -48,8 +48,9 @@ def Pc.toNat : Pc → Nat
   | .init => 0 | .aLoop => 1 | .loop => 2 | .aWrite => 3 | .write => 4 | .setS => 5 | .aWait => 6
   | .wait => 7 | .chkS => 8 | .aPollW => 9 | .pollW => 10 | .chkF => 11 | .aPollL => 12
   | .pollL => 13 | .done => 14 | .refused => 15 | .illegal => 16 | .timeout => 17
+  | .aWrite0 => 18 | .write0 => 19
 
-theorem Pc.toNat_lt (p : Pc) : p.toNat < 18 := by cases p <;> decide
+theorem Pc.toNat_lt (p : Pc) : p.toNat < 20 := by cases p <;> decide
 
 theorem Pc.toNat_inj (p q : Pc) (h : p.toNat = q.toNat) : p = q := by
   cases p <;> cases q <;> first | rfl | (exact absurd h (by decide))
@@ -64,7 +65,7 @@ theorem PState.num_inj (p q : PState) (h : p.num = q.num) : p = q := by
 def nxtFor (T : Tables) (c : Cfg) : Nat := if c.frm = 9 then 9 else nextOf T c.frm c.target
 
 def encCfg (c : Cfg) : Nat :=
-  c.pc.toNat + 18 * (c.st.num + 8 * (c.rst.toNat + 2 * (c.cache.num + 8 * c.frm)))
+  c.pc.toNat + 20 * (c.st.num + 8 * (c.rst.toNat + 2 * (c.cache.num + 8 * c.frm)))
 
 /-- well-formed for a closure over fixed `pdo`, `auto12`, `target` -/
 def wfB (T : Tables) (pdo auto12 : Bool) (target : Nat) (c : Cfg) : Bool :=
@@ -198,6 +199,7 @@ def forcePState {α : Type} (s : PState) (k : PState → α) : α :=
 def forcePc {α : Type} (p : Pc) (k : Pc → α) : α :=
   match p with
   | .init => k .init | .aLoop => k .aLoop | .loop => k .loop | .aWrite => k .aWrite
+  | .aWrite0 => k .aWrite0 | .write0 => k .write0
   | .write => k .write | .setS => k .setS | .aWait => k .aWait | .wait => k .wait
   | .chkS => k .chkS | .aPollW => k .aPollW | .pollW => k .pollW | .chkF => k .chkF
   | .aPollL => k .aPollL | .pollL => k .pollL | .done => k .done | .refused => k .refused
@@ -420,6 +422,92 @@ theorem ranked_sound {T : Tables} {view : PState → Nat} {vis : List Cfg} {memo
       rw [run]
       have hstep' := hstep _ (projCh_mem c.pc ch)
       rw [← step_proj, ← isStall_proj, ← isFatal_proj] at hstep'
+      rcases hstep' with (hst | hfa) | hlt
+      · rw [hst] at hs
+        simp only [if_true] at hs
+        apply ih _ (n - 1) hc' (by omega) hf.2
+        generalize rankOf memo (step T view c ch) = r' at *
+        generalize rankOf memo c = r at *
+        generalize rest.length = L at *
+        omega
+      · rw [hf.1] at hfa; exact absurd hfa (by decide)
+      · apply ih _ n hc' (by omega) hf.2
+        generalize rankOf memo (step T view c ch) = r' at *
+        generalize rankOf memo c = r at *
+        generalize rest.length = L at *
+        omega
+
+theorem noFatal_take (T : Tables) (view : PState → Nat) :
+    ∀ (k : Nat) (chs : List Choice) (c : Cfg), noFatal T view c chs = true →
+      noFatal T view c (chs.take k) = true
+  | 0, _, _, _ => by simp [noFatal]
+  | _ + 1, [], _, _ => by simp [noFatal]
+  | k + 1, ch :: rest, c, h => by
+    simp only [noFatal, Bool.and_eq_true] at h
+    simp only [List.take_succ_cons, noFatal, Bool.and_eq_true]
+    exact ⟨h.1, noFatal_take T view k rest _ h.2⟩
+
+/-! ## ranking towards an arbitrary stop set
+
+Same argument with "the setter has ended" replaced by any decidable set `stop` of configurations
+(used for: the drive *is in* the target state - which, unlike a returned setter, need not last). -/
+
+def rankDfsS (T : Tables) (view : PState → Nat) (stop : Cfg → Bool) : Nat → List Cfg → Nat → Nat
+  | 0, _, m => m
+  | _ + 1, [], m => m
+  | fuel + 1, c :: stk, m =>
+    normCfg c fun c =>
+    forceNat (encCfg c) fun k =>
+    if getSlot m k != 0 then rankDfsS T view stop fuel stk m
+    else if stop c then forceNat (putSlot m k 1) fun m' => rankDfsS T view stop fuel stk m'
+    else
+      let ss := nsSuccs T view c
+      let pending := ss.filter fun s => getSlot m (encCfg s) == 0
+      if pending.isEmpty then
+        forceNat (putSlot m k (1 + ss.foldl (fun a s => max a (getSlot m (encCfg s))) 0)) fun m' =>
+          rankDfsS T view stop fuel stk m'
+      else rankDfsS T view stop fuel (pending ++ c :: stk) m
+
+def checkRankedS (T : Tables) (view : PState → Nat) (stop : Cfg → Bool) (vis : List Cfg) (memo : Nat) : Bool :=
+  forceNat memo fun memo =>
+  vis.all fun c => stop c ||
+    (decide (0 < rankOf memo c) &&
+     (choicesAt c.pc).all fun ch => isStall view c ch || isFatal c ch ||
+       normCfg (step T view c ch) fun s => decide (rankOf memo s < rankOf memo c))
+
+theorem ranked_sound_stop {T : Tables} {view : PState → Nat} {stop : Cfg → Bool} {vis : List Cfg}
+    {memo : Nat}
+    (hclosed : ∀ c ∈ vis, ∀ ch, step T view c ch ∈ vis)
+    (h : checkRankedS T view stop vis memo = true) :
+    ∀ (chs : List Choice) (c : Cfg) (n : Nat), c ∈ vis →
+      stallCount T view c chs ≤ n → noFatal T view c chs = true →
+      256 * n + rankOf memo c ≤ chs.length →
+      ∃ k, k ≤ chs.length ∧ stop (run T view c (chs.take k)) = true := by
+  simp only [checkRankedS, forceNat_eq, normCfg_eq, List.all_eq_true, Bool.or_eq_true, Bool.and_eq_true,
+    decide_eq_true_eq] at h
+  intro chs
+  induction chs with
+  | nil =>
+    intro c n hc _ _ hl
+    rcases h c hc with ht | ⟨hpos, _⟩
+    · exact ⟨0, Nat.le_refl _, ht⟩
+    · simp only [List.length_nil] at hl; omega
+  | cons ch rest ih =>
+    intro c n hc hs hf hl
+    rcases h c hc with ht | ⟨hpos, hstep⟩
+    · exact ⟨0, Nat.zero_le _, ht⟩
+    · have hc' := hclosed c hc ch
+      simp only [stallCount] at hs
+      simp only [noFatal, Bool.and_eq_true, Bool.not_eq_true'] at hf
+      simp only [List.length_cons] at hl
+      have hr' : rankOf memo (step T view c ch) < 256 := getSlot_lt _ _
+      have hstep' := hstep _ (projCh_mem c.pc ch)
+      rw [← step_proj, ← isStall_proj, ← isFatal_proj] at hstep'
+      have fin : (∃ k, k ≤ rest.length ∧ stop (run T view (step T view c ch) (rest.take k)) = true) →
+          ∃ k, k ≤ (ch :: rest).length ∧ stop (run T view c ((ch :: rest).take k)) = true := by
+        rintro ⟨k, hk, hst⟩
+        exact ⟨k + 1, by simp only [List.length_cons]; omega, by simpa only [List.take_succ_cons, run] using hst⟩
+      apply fin
       rcases hstep' with (hst | hfa) | hlt
       · rw [hst] at hs
         simp only [if_true] at hs
